@@ -24,10 +24,12 @@ for d, flagged, viol, tp in res:
     mp = os.path.join(d, "meta.json")
     meta = json.load(open(mp))
     meta["detected_by_properties"] = flagged
-    meta["detected_by_own_property_check"] = meta["property"] in flagged
-    meta["reports"] = viol[:20]
+    own_v = [l for l in viol if l.startswith(meta["property"] + " VIOLATION ")]
+    meta["detected_by_own_property_check"] = bool(own_v)          # a VIOLATION line, not merely a fail-closed exit
+    meta["own_property_fail_closed_only"] = (meta["property"] in flagged) and not own_v
+    meta["reports"] = (own_v[:6] + [l for l in viol if l not in own_v])[:20]
     json.dump(meta, open(mp, "w"), indent=1)
-    own = meta["property"] in flagged
+    own = bool(own_v)
     exp = meta.get("expected_miss")
     print("%-8s own=%-5s flagged=%s%s" % (os.path.basename(d), own, flagged, "  (expected miss: %s)" % exp if exp else ""))
     if not own and not exp:
